@@ -16,7 +16,8 @@ package state
 //   ep i        GetEpochForBlock(header i)
 //   qall E      for every defined header, every epoch 0..E: qe and qc
 //   dump        both in-memory maps, sorted
-// Every query runs under a 2 s watchdog (observable `timeout`, the rest of the case prints `skip`).  When the ranged-over Go map holds
+// Every query runs under a watchdog of 2 s of process CPU time (observable `timeout`, the rest of the case
+// prints `skip`).  When the ranged-over Go map holds
 // several entries the answer may legitimately depend on Go's random map order: the query is then
 // repeated and the sorted set of distinct answers is printed (`3/7`).
 
@@ -27,6 +28,7 @@ import (
 	"strconv"
 	"strings"
 	"sync/atomic"
+	"syscall"
 	"testing"
 	"time"
 
@@ -51,16 +53,27 @@ var c26Timeouts, c26Leaked atomic.Int32
 // (its in-memory block map is emptied, so the spinning loop's next GetHeader fails and it returns) and
 // the rest of the case prints `skip`.
 func (n *c26Node) watch(f func() string) string {
-	ms := c26WatchMs
+	// the budget is CPU time of this process, not wall time: on an oversubscribed machine a query that
+	// merely waits for a core must not count as a hang, while a spinning loop burns its budget quickly
+	budget := time.Duration(c26WatchMs) * time.Millisecond
 	if c26Timeouts.Load() >= 3 {
-		ms = 150
+		budget = 150 * time.Millisecond
 	}
 	ch := make(chan string, 1)
+	start, wall := c26CPU(), time.Now()
 	go func() { ch <- vhCatch(f) }()
-	select {
-	case s := <-ch:
-		return s
-	case <-time.After(time.Duration(ms) * time.Millisecond):
+	tick := time.NewTicker(20 * time.Millisecond)
+	defer tick.Stop()
+wait:
+	for {
+		select {
+		case s := <-ch:
+			return s
+		case <-tick.C:
+			if c26CPU()-start >= budget || time.Since(wall) >= 120*time.Second {
+				break wait
+			}
+		}
 	}
 	c26Timeouts.Add(1)
 	n.dead = true
@@ -70,10 +83,19 @@ func (n *c26Node) watch(f func() string) string {
 	m.mutex.Unlock()
 	select {
 	case <-ch:
-	case <-time.After(2 * time.Second):
+	case <-time.After(10 * time.Second):
 		c26Leaked.Add(1)
 	}
 	return "timeout"
+}
+
+// c26CPU is the CPU time (user + system) this process has used so far.
+func c26CPU() time.Duration {
+	var ru syscall.Rusage
+	if err := syscall.Getrusage(syscall.RUSAGE_SELF, &ru); err != nil {
+		return 0
+	}
+	return time.Duration(ru.Utime.Nano() + ru.Stime.Nano())
 }
 
 type c26Node struct {
